@@ -134,6 +134,7 @@ class Scheduler(object):
         self.fair_quantum = 2500
         self.fair_switches = 0
         self.preempt_horizon = 10.0
+        self.trace_funcs = None  # function names whose entry is recorded as an 'enter' event
         self.point_hook = None  # optional callable(sched, vthread) at every point
 
     # ------------------------------------------------------------------ util
@@ -1150,7 +1151,10 @@ def _on_line(code, line):
     vt = s.by_ident.get(_get_ident())
     if vt is None:
         return None
+    prev = vt.loc
     vt.loc = (info[0], info[1], line)
+    if s.trace_funcs and info[1] in s.trace_funcs and (prev is None or prev[1] != info[1]) and s.cur is vt and not s.aborting:
+        s.record("enter", func=info[1])
     if s.line_points and s.cur is vt:
         s.point()
     return None
@@ -1273,7 +1277,7 @@ def _quiet_unraisable(unraisable):
 
 def run_case(clients, tape=(), block_tape=(), clock_mode="exact", max_steps=400000,
              max_vtime=1e5, line_points=True, track_lock_order=False, point_hook=None,
-             setup=None):
+             setup=None, trace_funcs=None):
     """Run client callables [(name, fn)] under a fresh scheduler.
 
     Returns the Scheduler (with .end_reason, .events, thread summaries) after
@@ -1283,6 +1287,7 @@ def run_case(clients, tape=(), block_tape=(), clock_mode="exact", max_steps=4000
     s = Scheduler(tape, block_tape, clock_mode, max_steps, max_vtime, line_points)
     s.track_lock_order = track_lock_order
     s.point_hook = point_hook
+    s.trace_funcs = set(trace_funcs) if trace_funcs else None
     old_hook = sys.unraisablehook
     sys.unraisablehook = _quiet_unraisable
     gc_was = gc.isenabled()
